@@ -213,6 +213,12 @@ class TDS(BaseRoutine):
         system.store_no_check_init(models=system.exist.pflow_tds)
         system.vars_to_models()
 
+        # models that take part in the simulation but are not initialized for it (power-flow-only
+        # models such as the DC network and VSC) must read the re-allocated arrays as well
+        for mdl in system.exist.pflow_tds.values():
+            if mdl not in system.exist.tds.values():
+                mdl.get_inputs(refresh=True)
+
         system.init(system.exist.tds, routine='tds')
 
         self.fg_update(system.exist.tds, init=True)
